@@ -108,7 +108,9 @@ class BaseFiles(Generic[Interface]):
             if not if_modified_since:
                 raise ValueError("Empty date value")
             modified_time = parsedate_to_datetime(if_modified_since).timestamp()
-        except ValueError:
+        except (TypeError, ValueError, OverflowError):
+            # OverflowError: a number too large for datetime / timedelta
+            # TypeError: what Python < 3.10 raises for an unparsable date
             return False
 
         return int(last_modified) <= int(modified_time)
